@@ -28,7 +28,15 @@ func newVerifStats() *verifStats { return &verifStats{counters: map[string]int64
 func (s *verifStats) ResetCounterTo(key string, value int64)     { s.counters[key] = value }
 func (s *verifStats) ResetCounter(key string)                    { s.counters[key] = 0 }
 func (s *verifStats) IncrementCounterBy(key string, value int64) { s.counters[key] += value }
-func (s *verifStats) IncrementCounter(key string)                { s.counters[key]++ }
+func (s *verifStats) IncrementCounter(key string) {
+	s.counters[key]++
+	if verifYieldAtStats {
+		nd.Yield() // a pre-emption point between two steps of the handler (C14 pre=1)
+	}
+}
+
+// verifYieldAtStats turns every counter increment into a pre-emption point.
+var verifYieldAtStats bool
 func (s *verifStats) AddSample(key string, value int64)          { s.samples++ }
 
 type verifLogger struct {
@@ -209,7 +217,7 @@ func verifQuestionName(world int) string {
 }
 
 type verifQueryOpts struct {
-	edns     int // 0 none, 1 plain OPT, 2 OPT+ECS, 3 OPT+unknown option, 4 OPT+ECS+unknown
+	edns     int // 0 none, 1 plain OPT, 2 OPT+ECS, 3 OPT+unknown option, 4 OPT+ECS+unknown, 5 OPT+unknown+ECS
 	ecsFam   int // 0 (family 0), 1, 2
 }
 
@@ -230,12 +238,18 @@ func verifBuildQuery(name string, qtype uint16, o verifQueryOpts) (*dns.Msg, *dn
 		opt.Hdr.Rrtype = dns.TypeOPT
 		opt.Hdr.Class = nd.Uint16() // advertised UDP size
 		opt.Hdr.Ttl = nd.Uint32()   // extended rcode, version, DO and Z bits
-		if o.edns == 2 || o.edns == 4 {
+		if o.edns == 2 || o.edns == 4 || o.edns == 5 {
 			ecs = verifECS(o.ecsFam)
 			opt.Option = append(opt.Option, ecs)
 		}
-		if o.edns == 3 || o.edns == 4 {
-			opt.Option = append(opt.Option, &dns.EDNS0_LOCAL{Code: 65001, Data: nd.Bytes(2)})
+		if o.edns == 3 || o.edns == 4 || o.edns == 5 {
+			local := &dns.EDNS0_LOCAL{Code: 65001, Data: nd.Bytes(2)}
+			if o.edns == 5 {
+				// the unknown option precedes the client-subnet option
+				opt.Option = append([]dns.EDNS0{local}, opt.Option...)
+			} else {
+				opt.Option = append(opt.Option, local)
+			}
 		}
 		m.Extra = append(m.Extra, opt)
 	}
@@ -260,11 +274,20 @@ func verifECS(fam int) *dns.EDNS0_SUBNET {
 		// bound: the source prefix length comes from a pool around the boundaries that matter
 		// (0, byte boundaries, the declared /32, the default scope 48, full length); only the
 		// first four address bytes are symbolic (the rest is zero)
-		pool := []uint8{0, 31, 32, 33, 48, 64, 128}
-		e.SourceNetmask = pool[nd.Choice(len(pool))]
+		// second form: an IPv4-mapped address ::ffff:a.b.c.d with four symbolic bytes and a source
+		// length around the mapped boundaries (96, the declared 96+8, byte boundaries, full length)
 		nd.Assume(e.SourceScope <= 128)
 		a := make(net.IP, 16)
-		copy(a, nd.Bytes(4))
+		if nd.Bool() {
+			pool := []uint8{0, 95, 96, 103, 104, 105, 120, 128}
+			e.SourceNetmask = pool[nd.Choice(len(pool))]
+			a[10], a[11] = 0xff, 0xff
+			copy(a[12:], nd.Bytes(4))
+		} else {
+			pool := []uint8{0, 31, 32, 33, 48, 64, 128}
+			e.SourceNetmask = pool[nd.Choice(len(pool))]
+			copy(a, nd.Bytes(4))
+		}
 		e.Address = a
 	}
 	return e
